@@ -106,7 +106,13 @@ func newWorld(s *simkit.Sim, sc *TxnScenario) (*world, error) {
 	w.Cl = simkit.Bootstrap(s, cluster, sc.Stores, splits)
 	w.srv = refkv.NewServer(cluster)
 	w.Net = simkit.NewNet(s, w.srv)
-	w.Net.Topo = w.Cl
+	// a split attached to a request cuts its region at the request's first key or at a key of the pool inside
+	// the region (the keys of one batched read then sit on both sides of the new border)
+	var pool [][]byte
+	for _, k := range sc.Keys {
+		pool = append(pool, []byte(k))
+	}
+	w.Net.Topo = &simkit.InnerSplitTopo{Cl: w.Cl, Keys: pool, H: simkit.NewHasher(s.Seed, "innersplit")}
 	w.Net.Describe = w.Cl.Describe
 	w.Net.Jitter = time.Duration(sc.Net.JitterUs) * time.Microsecond
 	for k, f := range sc.Net.Plan {
@@ -351,6 +357,11 @@ func (t *txnRun) runWriter() {
 			t.logf("op%d flushwait -> %v", i, err)
 			if err != nil {
 				t.flushErr = errClass(err)
+			}
+		case "split":
+			// a region border appears between keys the client has cached in one region
+			if t.w.Cl.SplitAt([]byte(op.Keys[0])) {
+				t.stats["txn.program-split"]++
 			}
 		case "sleep":
 			// (odd microseconds: the program never wakes at the very instant an RPC answer arrives)
